@@ -56,9 +56,16 @@ def main(argv=None):
     kf = [k for k in known.get("findings", []) if k.get("property") == pid]
     failures = []
     undecided = []
+    focus = cfg.get("focus", {})
+    unrelated = []
     for r in results:
+        fl = focus.get(r["unit"])
         for f in r["failures"]:
-            failures.append(f)
+            fn = (f.get("function") or "").split("::")[-1]
+            if fl is not None and fn not in fl and (f.get("function") or "") not in fl:
+                unrelated.append("%s @ %s" % (f["obligation"], f.get("where", "")))
+            else:
+                failures.append(f)
         for u in r["undecided"]:
             undecided.append("%s: %s" % (r["unit"], u))
     for e in extra:
@@ -93,13 +100,19 @@ def main(argv=None):
                 trusted.append(t)
     fns = []
     for r in results:
+        fl = focus.get(r["unit"])
         for f in r["functions"]:
+            if fl is not None and f["name"].split("::")[-1] not in fl and f["name"] not in fl:
+                continue
             fns.append({"unit": r["unit"], "name": f["name"], "where": "%s:%d" % (f["file"], f["line"]),
                         "status": "assumed (external_body)" if f["external_body"] else
                         ("under contract" if f["has_spec"] else "verified for safety only (no contract)")})
     samples = []
     for r in results:
+        fl = focus.get(r["unit"])
         for f in r["functions"][:400]:
+            if fl is not None and f["name"].split("::")[-1] not in fl and f["name"] not in fl:
+                continue
             if f["has_spec"] and not f["external_body"]:
                 samples.append("%s::%s::post+safety @ %s:%d" % (r["unit"], f["name"], f["file"], f["line"]))
     for e in extra:
@@ -133,6 +146,8 @@ def main(argv=None):
         "unverified_surroundings": cfg.get("unverified_surroundings", []),
         "known_findings": ["%s: %s" % (k["obligation"], k["what"]) for k, _ in known_hit],
         "undecided": undecided,
+        "failures_outside_this_property": unrelated,
+        "focus": focus,
         "failed_obligations": [f["obligation"] + " @ " + f.get("where", "") for f in new_fail],
         "explanation": cfg.get("explanation", ""),
         "steps": [{k: v for k, v in e.items() if k not in ("failures",)} for e in extra],
